@@ -161,6 +161,8 @@ def exact(run, fx):
         extra = D.extra_guards(fx, b, bb, [lambda a: a[0] == "bool" and a[2] is False and K.mentions_field(a[1][0], "flag")])
         run.selftest("exact-guard-set/" + fn, bool(extra), exp)
     fm = D.field_mutations(fx, F + "Mm")
+    for fn, fld, exp in (("ctr_stat_only", "hits", False), ("ctr_stat_only", "misses", False), ("ctr_bad_logic", "hits", True), ("ctr_bad_passed", "misses", True)):
+        run.selftest("counter-only-reads/%s.%s" % (fn, fld), bool(D.logic_reads_of_field(fx.bodies[F + fn], F + "Ctr", fld)), exp)
     run.selftest("mutation-map/insert+remove+assign", sorted(fm.get("seen", {})) == ["insert", "remove"] and sorted(fm.get("n", {})) == ["assign"], True)
 
 
